@@ -214,7 +214,7 @@ set_option maxRecDepth 100000 in
 example : Inv st2.mem 0x1000#64 := by
   have h0 : Inv C09.demo3.mem 0x1000#64 := C01.init_inv _ _ (fun _ => rfl)
   have hidx : IdxOK [0, 0, 0] := by intro j h; simp at h; omega
-  have hpf : ParentFlagsOK 3#64 := ⟨by decide, by decide, by decide⟩
+  have hpf : ParentFlagsOK 3#64 := ⟨by decide, by decide⟩
   have hlf : (if false = true then C01.LeafFlagsHuge 1#64 else C01.LeafFlags4K 1#64) := by
     simp only [Bool.false_eq_true, if_false]; exact ⟨by decide, by decide⟩
   have hfr : C01.FrameOK 4096 0x5000#64 := by unfold C01.FrameOK; simp only [if_true]; decide
